@@ -45,6 +45,9 @@ func (c04) Gen(rng *rand.Rand, tier string) []Case {
 			if rng.Intn(4) == 0 {
 				l = rng.Intn(1600)
 			}
+			if rng.Intn(3) == 0 { // every length in a window around the pool block size
+				l = 1480 + rng.Intn(60)
+			}
 			if i%50 == 0 && b == 0 {
 				l = 65535
 			}
